@@ -81,7 +81,7 @@ def prop(case, rec):
     if not r.ok:
         if r.error is not None and not isinstance(r.error, ZeroDivisionError):
             raise Violation('crash:' + type(r.error).__name__, f'run_trainer raised {r.error!r}', case)
-        rec.skip('trainer_did_not_complete')
+        trainer.skip_or_alarm(rec, r, case, case['entries'], case['alphabet_size'])
         return
     has_m = case['coverage'] != 1
     g = guard(case, guesser.load, out, skip_brute=has_m)
@@ -255,9 +255,13 @@ def cli_cases(draw):
             seen.add(p_)
             entries.append([p_, draw(st.sampled_from([1, 2, 5]))])
     entries += [e for e in [['password1', 6], ['Monkey12', 5], ['love2019!', 2]] if e[0] not in seen]
-    return {'entries': entries, 'coverage': draw(st.sampled_from([0.6, 1])), 'ngram': draw(st.sampled_from([2, 3, 4])),
-            'spelling': draw(st.sampled_from(trainer.SPELLINGS)), 'context': draw(cli.contexts()),
+    c_ = {'entries': entries, 'coverage': draw(st.sampled_from([0.6, 1])), 'ngram': draw(st.sampled_from([2, 3, 4])),
+            'spelling': draw(st.sampled_from(trainer.SPELLINGS)),
+            'context': draw(cli.contexts(io_modes=('utf8', 'utf8', 'utf8_strict', 'c_locale') if all(e[0].isascii() for e in entries) else ('utf8', 'utf8', 'utf8_strict'))),
             'rule_spelling': draw(st.sampled_from(['bare', 'trailing_separator', 'subfolder', 'absolute'])), 'stale_ruleset': draw(st.booleans())}
+    if c_['context'].get('io') == 'c_locale' and not c_['context']['rule'].isascii():
+        c_['context']['rule'] = 'T 2'         # a name the ASCII-only process can write into its own files
+    return c_
 
 
 def run_cli(rec, seed, shard, nshards, tier):
